@@ -85,6 +85,7 @@ type Ctx struct {
 	cands      []*Term // instantiation candidates: integer parameters, loop counters (and +1)
 	recDefs    map[string]*recDef
 	recBuilding map[string]*recDef
+	typePos    token.Pos // a position inside the function under contract (resolves its type parameters)
 }
 
 // addCand registers an integer-valued program variable as an instantiation
